@@ -673,6 +673,33 @@ def ctx_tags(case):
                    for lines in case.get('ctx') or [] for ln in lines})
 
 
+def body_request(case):
+    lines = []
+    for a, before in zip(case['atoms'], case['ctx']):
+        for ln in before:
+            t = ln.split()
+            lines.append(dict(k='move', params=[float(v) for v in t[1:]]) if t[0].upper() == 'MOVE' else dict(k='other'))
+        lines.append(dict(k='atom', xyz=a['xyz'], u=u_full(a['u'])))
+    return dict(p='C12', op='body', cell=case['cell'], lines=lines)
+
+
+def check_body(ctx, case, obs, r):
+    """implementation vs the model of the parser (parseBody) and the model vs what the body says (specBody; theorem
+    parse_body_coherent): the atoms of the file in order, each at the position of its own line"""
+    if [m['frac'] for m in r['atoms']] != [m['frac'] for m in r['spec']] or not all(close3(m['cart'], t['cart']) for m, t in zip(r['atoms'], r['spec'])):
+        raise RuntimeError(f'Lean model and spec of the file body disagree: {r}')
+    if not isinstance(obs, dict) or 'atoms' not in obs or len(obs['atoms']) != len(r['atoms']):
+        return      # not read / nothing asked before the edits: reported elsewhere
+    for i, (o, m) in enumerate(zip(obs['atoms'], r['atoms'])):
+        pl = dict(case=dict(case, pairs=[], **({'edits': []} if 'edits' in case else {})), stream='cart', actual=o['frac'], model=m['frac'])
+        if not close3(o['frac'], m['frac'], 1e-12, 1e-12):
+            ctx.fail('C12|body|frac_coords|model', f'atom {i} behind {sum(case["ctx"][:i + 1], [])}: frac_coords {o["frac"]}, the model of '
+                     f'the parser gives the position written on its line {m["frac"]}', pl, kind='correspondence')
+        elif isinstance(o['cart'], list) and close3(o['cart'], r['spec'][i]['cart']) and not close3(o['cart'], m['cart']):
+            ctx.fail('C12|body|cart_coords|model', f'atom {i}: cart_coords {o["cart"]}, model of the parser {m["cart"]}',
+                     dict(pl, actual=o['cart'], model=m['cart']), kind='correspondence')
+
+
 def evaluate(ctx, cases, stream=None):
     reqs = []
     impls = []
@@ -698,9 +725,16 @@ def evaluate(ctx, cases, stream=None):
                                  pairs=[[st[i]['xyz'], st[(i + 1) % n]['xyz']] for i in range(n)], us=[a['u'] for a in st]))
                 for i, a in enumerate(st):      # the model of the object under the same history, atom by atom
                     reqs.append(hist_request(pc, a, i))
+    bodies = {}
+    for ci, case in enumerate(cases):
+        if case.get('ctx'):             # the model of the parser walking through the body of this file
+            bodies[ci] = len(reqs)
+            reqs.append(body_request(as_written(case)))
     ans = ctx.driver.batch(reqs)
     for s in ('cell', 'cart', 'dist', 'ueq', 'npd', 'edit'):
         ctx.stream(s)
+    for ci, q in bodies.items():
+        check_body(ctx, as_written(cases[ci]), impls[ci], ans[q])
     for ci, (case, obs, r) in enumerate(zip(cases, impls, ans[:nreq])):
         if ci in finals and not (isinstance(obs, str) or 'error' in obs):
             eo = obs.get('edit')
